@@ -24,15 +24,31 @@
 //!            with raw OS error 90 and emits nothing; a payload <= limit
 //!            returns Ok(len) and exactly that payload appears on the wire
 //!            (cross-host) / is received intact (loopback).
+//! * UDP-LIMITS  (second phase of every case, controller-style `World` with its own MTU pair
+//!            loopback_mtu <, = or > mtu) the limit that applies to a datagram is the one of the
+//!            interface it leaves from — KernelConfig: `loopback_mtu` = "MTU for loopback",
+//!            `mtu` = "MTU for non-loopback traffic" — whatever address the SENDING socket is
+//!            bound to (wildcard, loopback, the host's own address) and whether it is connected
+//!            (`send`) or not (`send_to`): a datagram to 127.0.0.1 / ::1 is held to
+//!            loopback_mtu - ip_header - 8, one to another host to mtu - ip_header - 8; within
+//!            the limit it is accepted, returns its length and is received intact exactly once,
+//!            beyond it it fails with raw OS error 90 (EMSGSIZE, kernel/mod.rs rustdoc) and
+//!            nothing is delivered; no UDP packet on the wire exceeds the external limit.  For a
+//!            datagram to the sender's OWN routable address the docs do not say which of the
+//!            two MTUs applies: at most the smaller limit must be accepted, beyond the larger
+//!            limit must be rejected, in between is not asserted.
 
 use crate::drivers::netwire::{
     self as nw, Cfg, Ev, Fate, FatePlan, Kind, Limits, NetSnap, Op, PktRec, Script, TableWire, Tracker, Until, Wire,
 };
+use crate::drivers::netwire_ext::{now_or_never, AllNow, Held, World};
 use crate::engine::{replay_as, Ctx, Outcome, Tier};
 use proptest::prelude::*;
 use serde::{Deserialize, Serialize};
 use serde_json::Value;
-use std::net::SocketAddr;
+use std::collections::BTreeMap;
+use std::net::{IpAddr, Ipv4Addr, Ipv6Addr, SocketAddr};
+use turmoil_net::shim::tokio::net::UdpSocket;
 use turmoil_net::{Packet, Transport};
 
 pub const PROP: super::Prop = super::Prop { id: "C16", level: "exploration", check, replay };
@@ -43,6 +59,12 @@ const KEY_C2S: u8 = 0x42;
 const KEY_S2C: u8 = 0x9C;
 const KEY_UDP: u8 = 0x55;
 const MAX_EXTRA: usize = 3;
+/// port of the receivers of the UDP-LIMITS phase
+const URPORT: u16 = 9300;
+const KEY_UDP2: u8 = 0xA7;
+const MAX_USHAPES: usize = 6;
+/// smallest MTU of the UDP-LIMITS phase: IPv6 header + UDP header (payload room 0 on v6, 20 on v4)
+const UMTU_MIN: u32 = 48;
 
 #[derive(Clone, Debug, Serialize, Deserialize, PartialEq)]
 pub enum WOp {
@@ -95,6 +117,39 @@ pub struct XConn {
     pub server: Side,
 }
 
+/// MTU pair of the UDP-LIMITS phase (independent of the TCP phase's `cfg`).
+#[derive(Clone, Debug, Serialize, Deserialize, PartialEq)]
+pub struct UCfg {
+    pub mtu: u32,
+    pub loopback_mtu: u32,
+}
+impl Default for UCfg {
+    fn default() -> Self {
+        UCfg { mtu: 1500, loopback_mtu: 65_536 }
+    }
+}
+
+/// One datagram of the UDP-LIMITS phase: who sends it, from what kind of socket, where to, and how
+/// its size relates to the two limits.
+#[derive(Clone, Debug, Serialize, Deserialize, PartialEq)]
+pub struct UShape {
+    /// sending host
+    pub host: usize,
+    pub v6: bool,
+    /// the sender is bound to: 0 = the wildcard address, 1 = loopback, 2 = the host's own address
+    /// (always port 0; sockets are reused by later datagrams of the same shape)
+    pub bind: u8,
+    /// `connect(dst)` + `send` instead of `send_to(dst)`
+    pub connected: bool,
+    /// 0 = loopback, 1 = the sender's own routable address, 2 = the other host
+    /// (a loopback-bound sender always sends to loopback)
+    pub dst: u8,
+    /// the payload length is `delta` away from the limit of: false = the loopback MTU, true = the
+    /// external MTU (of the datagram's family)
+    pub ext_anchor: bool,
+    pub delta: i32,
+}
+
 #[derive(Clone, Debug, Serialize, Deserialize, PartialEq)]
 pub struct Scenario {
     pub cfg: Cfg,
@@ -108,6 +163,11 @@ pub struct Scenario {
     /// further concurrent TCP connections (absent in replay files older than this field)
     #[serde(default)]
     pub extra: Vec<XConn>,
+    /// UDP-LIMITS phase (absent in replay files older than these fields: no second phase)
+    #[serde(default)]
+    pub ucfg: UCfg,
+    #[serde(default)]
+    pub ushapes: Vec<UShape>,
 }
 
 /// One TCP connection of a scenario, resolved to hosts, slots, ports and keys.
@@ -464,6 +524,12 @@ pub fn valid(sc: &Scenario) -> Result<(), String> {
     if sc.cfg.send_cap == 0 || sc.cfg.recv_cap == 0 || sc.cfg.retx_threshold == 0 {
         return Err("caps and retx_threshold must be >= 1".into());
     }
+    if !sc.ushapes.is_empty() && (sc.ucfg.mtu < UMTU_MIN || sc.ucfg.loopback_mtu < UMTU_MIN) {
+        return Err("UDP-LIMITS MTUs must leave room for the IPv6 + UDP headers".into());
+    }
+    if sc.ushapes.len() > MAX_USHAPES {
+        return Err("too many UDP-LIMITS shapes".into());
+    }
     Ok(())
 }
 
@@ -722,11 +788,243 @@ pub fn run(sc: &Scenario) -> Outcome {
         nw::End::Stalled => out.label("end:stalled(liveness is C06's business)"),
         nw::End::Bound => out.label("end:round-bound"),
     }
+    if !sc.ushapes.is_empty() {
+        udp_limits(sc, &mut out);
+    }
     out.count("data-segments-checked", mon.data_segments);
     out.count("netstat-snapshots-checked", mon.snapshots);
     out.count("try_write-calls-checked", wouldblock + try_ok);
     out.count("udp-sends-checked", udp_rejected + udp_ok_sent.len() as u64);
     out
+}
+
+// ---------------------------------------------------------------- UDP-LIMITS phase
+
+fn any_ip(v6: bool) -> IpAddr {
+    if v6 {
+        IpAddr::V6(Ipv6Addr::UNSPECIFIED)
+    } else {
+        IpAddr::V4(Ipv4Addr::UNSPECIFIED)
+    }
+}
+
+fn ushape_len(u: &UCfg, p: &UShape) -> usize {
+    let c = Cfg { mtu: u.mtu, loopback_mtu: u.loopback_mtu, ..Cfg::default() };
+    let anchor = c.udp_limit(p.v6, !p.ext_anchor) as i64;
+    (anchor + p.delta as i64).clamp(0, 70_000) as usize
+}
+
+/// Destination class of a shape after the loopback-bound rule: 0 loopback, 1 own address, 2 remote.
+fn ushape_dst(p: &UShape) -> u8 {
+    if p.bind % 3 == 1 {
+        0
+    } else {
+        p.dst % 3
+    }
+}
+
+/// Second phase: a fresh two-host `Net` with the MTU pair `sc.ucfg`; per host and family one
+/// wildcard-bound receiver; the shapes are executed one after the other (bind / connect if the
+/// socket of that shape does not exist yet, send, two wire rounds, receive).
+fn udp_limits(sc: &Scenario, out: &mut Outcome) {
+    let u = &sc.ucfg;
+    if u.mtu < UMTU_MIN || u.loopback_mtu < UMTU_MIN {
+        out.label("udp-limits:invalid-mtu");
+        return;
+    }
+    let cfg = Cfg { mtu: u.mtu, loopback_mtu: u.loopback_mtu, ..Cfg::default() };
+    let hosts: Vec<Vec<IpAddr>> = (0..2).map(|h| vec![nw::host_ip(h, false), nw::host_ip(h, true)]).collect();
+    let mut world = World::new(cfg.kernel(), &hosts);
+    out.label(match u.loopback_mtu.cmp(&u.mtu) {
+        std::cmp::Ordering::Less => "udp-limits:loopback_mtu<mtu",
+        std::cmp::Ordering::Equal => "udp-limits:loopback_mtu=mtu",
+        std::cmp::Ordering::Greater => "udp-limits:loopback_mtu>mtu",
+    });
+    // receivers: index 2 * host + v6
+    let mut rx: Vec<Held<UdpSocket>> = Vec::new();
+    for h in 0..2 {
+        for v6 in [false, true] {
+            world.pin(h);
+            match now_or_never(UdpSocket::bind(SocketAddr::new(any_ip(v6), URPORT))) {
+                Some(Ok(s)) => rx.push(world.hold(h, s)),
+                other => {
+                    out.fail("udp-limits:harness:receiver-bind-failed", format!("host {h} v6 {v6}: {:?}", other.map(|r| r.map(|_| ()))));
+                    return;
+                }
+            }
+        }
+    }
+    // senders, by (host, v6, bind, connected destination)
+    let mut tx: BTreeMap<(usize, bool, u8, Option<u8>), Held<UdpSocket>> = BTreeMap::new();
+    let mut checked = 0u64;
+    for (idx, p) in sc.ushapes.iter().take(MAX_USHAPES).enumerate() {
+        let h = p.host % 2;
+        let bind = p.bind % 3;
+        let dstc = ushape_dst(p);
+        let (dst_ip, dst_host) = match dstc {
+            0 => (nw::lo_ip(p.v6), h),
+            1 => (nw::host_ip(h, p.v6), h),
+            _ => (nw::host_ip(1 - h, p.v6), 1 - h),
+        };
+        let dst = SocketAddr::new(dst_ip, URPORT);
+        let key = (h, p.v6, bind, p.connected.then_some(dstc));
+        if !tx.contains_key(&key) {
+            let ip = match bind {
+                0 => any_ip(p.v6),
+                1 => nw::lo_ip(p.v6),
+                _ => nw::host_ip(h, p.v6),
+            };
+            world.pin(h);
+            let s = match now_or_never(UdpSocket::bind(SocketAddr::new(ip, 0))) {
+                Some(Ok(s)) => world.hold(h, s),
+                other => {
+                    out.fail("udp-limits:harness:sender-bind-failed", format!("host {h} bind {ip}: {:?}", other.map(|r| r.map(|_| ()))));
+                    return;
+                }
+            };
+            if p.connected {
+                match now_or_never(s.get().connect(dst)) {
+                    Some(Ok(())) => {}
+                    other => {
+                        out.fail("udp-limits:harness:connect-failed", format!("host {h} socket bound to {ip} connect({dst}): {other:?}"));
+                        return;
+                    }
+                }
+            }
+            tx.insert(key, s);
+        } else {
+            out.label("udp-limits:socket-reused");
+        }
+        let s = tx.get(&key).unwrap();
+        let sport = s.get().local_addr().map(|a| a.port()).unwrap_or(0);
+        let len = ushape_len(u, p);
+        let off = 7919 * (idx as u64 + 1);
+        let data: Vec<u8> = (0..len).map(|i| nw::pat(KEY_UDP2, off + i as u64)).collect();
+        let res = if p.connected { now_or_never(s.get().send(&data)) } else { now_or_never(s.get().send_to(&data, dst)) };
+        let Some(res) = res else {
+            out.fail("udp-limits:send-did-not-complete-at-once", format!("shape {idx} {p:?}"));
+            return;
+        };
+        let first_pkt = world.pkts.len();
+        world.step(&mut AllNow);
+        world.step(&mut AllNow);
+
+        // the oracle
+        let lim_lo = cfg.udp_limit(p.v6, true);
+        let lim_ext = cfg.udp_limit(p.v6, false);
+        let (must_accept_upto, must_reject_above) = match dstc {
+            0 => (lim_lo, lim_lo),
+            2 => (lim_ext, lim_ext),
+            _ => (lim_lo.min(lim_ext), lim_lo.max(lim_ext)),
+        };
+        let bind_s = ["wildcard", "loopback", "own-address"][bind as usize];
+        let dst_s = ["loopback", "own-address", "remote"][dstc as usize];
+        let what = format!(
+            "shape {idx}: host {h} socket bound to {bind_s} ({}) {} {len} bytes to {dst}; mtu {} loopback_mtu {}: loopback limit {lim_lo}, external limit {lim_ext}",
+            if p.v6 { "v6" } else { "v4" },
+            if p.connected { "connected, send of" } else { "send_to of" },
+            u.mtu,
+            u.loopback_mtu
+        );
+        out.label(format!("udp-limits:{bind_s}-bound->{dst_s}"));
+        if p.connected {
+            out.label("udp-limits:connected-send");
+        }
+        let between = len > lim_lo.min(lim_ext) && len <= lim_lo.max(lim_ext);
+        if between {
+            out.label("udp-limits:payload-between-the-two-limits");
+            // the MTU implied by the bound address differs from the one the datagram leaves through
+            if dstc == 0 && bind != 1 {
+                out.label("udp-limits:between-limits+non-loopback-bound-sender->loopback");
+            }
+            if dstc == 1 {
+                out.label("udp-limits:between-limits->own-address(unasserted)");
+            }
+        }
+        if len == must_accept_upto {
+            out.label("udp-limits:exactly-at-limit");
+        }
+        if len == must_reject_above + 1 {
+            out.label("udp-limits:one-over-limit");
+        }
+        checked += 1;
+        let accepted = match &res {
+            Ok(n) => {
+                if len > must_reject_above {
+                    out.fail("udp-limits:oversized-payload-was-accepted", format!("{what}: returned Ok({n})"));
+                    return;
+                }
+                if *n != len {
+                    out.fail("udp-limits:send-returned-wrong-length", format!("{what}: returned Ok({n})"));
+                    return;
+                }
+                out.label("udp-limits:accepted");
+                true
+            }
+            Err(e) => {
+                if len <= must_accept_upto {
+                    out.fail("udp-limits:payload-within-limit-was-rejected", format!("{what}: failed with {e:?}"));
+                    return;
+                }
+                if e.raw_os_error() != Some(90) {
+                    out.fail("udp-limits:oversized-payload-rejected-with-wrong-error", format!("{what}: failed with {e:?}, expected raw OS error 90 (EMSGSIZE)"));
+                    return;
+                }
+                out.label("udp-limits:rejected");
+                false
+            }
+        };
+        // the wire: nothing larger than the external limit of its family, and a cross-host
+        // datagram appears exactly once iff it was accepted
+        let wire: Vec<&PktRec> = world.pkts[first_pkt..].iter().filter(|r| r.kind == Kind::Udp).collect();
+        for r in &wire {
+            let l = cfg.udp_limit(r.dst.is_ipv6(), false);
+            if r.len > l {
+                out.fail("udp-limits:datagram-on-the-wire-exceeds-mtu", format!("{what}: wire packet {r:?} carries {} > {l} bytes", r.len));
+                return;
+            }
+        }
+        if dstc == 2 {
+            let lens: Vec<usize> = wire.iter().map(|r| r.len).collect();
+            let want: Vec<usize> = if accepted { vec![len] } else { vec![] };
+            if lens != want {
+                out.fail("udp-limits:datagrams-on-the-wire-differ-from-accepted-sends", format!("{what}: accepted {accepted}, wire payload lengths {lens:?}"));
+                return;
+            }
+        }
+        // the receiver
+        let r = &rx[2 * dst_host + p.v6 as usize];
+        let mut buf = vec![0u8; len + 64];
+        let got = r.get().try_recv_from(&mut buf);
+        match (accepted, got) {
+            (true, Ok((n, from))) => {
+                if n != len || buf[..n] != data[..] {
+                    out.fail("udp-limits:received-payload-differs", format!("{what}: received {n} bytes from {from}"));
+                    return;
+                }
+                if from.port() != sport {
+                    out.fail("udp-limits:received-from-unexpected-port", format!("{what}: sender port {sport}, received from {from}"));
+                    return;
+                }
+                if let Ok((n2, from2)) = r.get().try_recv_from(&mut buf) {
+                    out.fail("udp-limits:datagram-delivered-twice", format!("{what}: a second datagram of {n2} bytes from {from2} was queued"));
+                    return;
+                }
+            }
+            (true, Err(e)) => {
+                out.fail("udp-limits:accepted-datagram-not-received", format!("{what}: try_recv_from on host {dst_host}: {e:?}"));
+                return;
+            }
+            (false, Ok((n, from))) => {
+                out.fail("udp-limits:rejected-datagram-was-delivered", format!("{what}: {n} bytes from {from} were received"));
+                return;
+            }
+            (false, Err(_)) => {}
+        }
+    }
+    out.count("udp-limits-sends-checked", checked);
+    drop(tx);
+    drop(rx);
 }
 
 // ---------------------------------------------------------------- generators
@@ -806,6 +1104,49 @@ fn udp_strategy() -> BoxedStrategy<Vec<UdpProbe>> {
     .boxed()
 }
 
+/// MTU pair of the UDP-LIMITS phase: external MTU 48..=1500 (emphasis near the header size), the
+/// loopback MTU smaller (4/10), equal (2/10), up to 200 bytes larger (3/10) or the default 65536.
+fn ucfg_strategy() -> BoxedStrategy<UCfg> {
+    (
+        prop_oneof![2 => UMTU_MIN..=56, 3 => 57u32..=200, 1 => 201u32..=1499, 1 => Just(1500u32)],
+        prop_oneof![4 => Just(0u8), 2 => Just(1u8), 3 => Just(2u8), 1 => Just(3u8)],
+        any::<u32>(),
+    )
+        .prop_map(|(mtu, rel, r)| UCfg { mtu, loopback_mtu: ucfg_lo(mtu, rel, r) })
+        .boxed()
+}
+
+/// Loopback MTU from the external one (shared with `fuzz_sanitize`).
+fn ucfg_lo(mtu: u32, rel: u8, r: u32) -> u32 {
+    match rel % 4 {
+        0 if mtu > UMTU_MIN => UMTU_MIN + r % (mtu - UMTU_MIN),
+        0 | 1 => mtu,
+        2 => mtu + 1 + r % 200,
+        _ => 65_536,
+    }
+}
+
+fn ushape_delta_strategy() -> BoxedStrategy<i32> {
+    prop_oneof![3 => Just(0i32), 3 => Just(1i32), 2 => Just(-1i32), 1 => -3i32..=-2, 1 => 2i32..=40, 1 => -200i32..=-4].boxed()
+}
+
+fn ushapes_strategy() -> BoxedStrategy<Vec<UShape>> {
+    proptest::collection::vec(
+        (
+            0usize..2,
+            any::<bool>(),
+            prop_oneof![3 => Just(0u8), 1 => Just(1u8), 2 => Just(2u8)],
+            prop_oneof![2 => Just(false), 1 => Just(true)],
+            prop_oneof![3 => Just(0u8), 1 => Just(1u8), 2 => Just(2u8)],
+            any::<bool>(),
+            ushape_delta_strategy(),
+        )
+            .prop_map(|(host, v6, bind, connected, dst, ext_anchor, delta)| UShape { host, v6, bind, connected, dst: if bind == 1 { 0 } else { dst }, ext_anchor, delta }),
+        0..=MAX_USHAPES,
+    )
+    .boxed()
+}
+
 fn xconn_strategy() -> BoxedStrategy<XConn> {
     (
         0usize..2,
@@ -849,8 +1190,10 @@ pub fn strategy() -> BoxedStrategy<Scenario> {
         plan_strategy(),
         udp_strategy(),
         extra_strategy(),
+        ucfg_strategy(),
+        ushapes_strategy(),
     )
-        .prop_map(|((mut cfg, v6), lo, client, server, plan, mut udp, extra)| {
+        .prop_map(|((mut cfg, v6), lo, client, server, plan, mut udp, extra, ucfg, ushapes)| {
             // keep oversized UDP payload buffers small unless the loopback MTU is the default
             for p in udp.iter_mut() {
                 if p.delta > 1000 && (p.lo && cfg.loopback_mtu > 10_000) {
@@ -860,7 +1203,7 @@ pub fn strategy() -> BoxedStrategy<Scenario> {
             if cfg.loopback_mtu > 65_536 {
                 cfg.loopback_mtu = 65_536;
             }
-            let mut sc = Scenario { cfg, v6, lo, client, server, plan, udp, extra };
+            let mut sc = Scenario { cfg, v6, lo, client, server, plan, udp, extra, ucfg, ushapes };
             fit_mtu(&mut sc);
             sc
         })
@@ -897,6 +1240,52 @@ fn pair_space() -> Vec<Scenario> {
                                 plan: FatePlan::default(),
                                 udp: vec![],
                                 extra: vec![XConn { ch: xch, scope: xscope, v6: xv6, delay: 0, first, client: side(), server: side() }],
+                                ucfg: UCfg::default(),
+                                ushapes: vec![],
+                            });
+                        }
+                    }
+                }
+            }
+        }
+    }
+    v
+}
+
+/// Bounded family of the UDP-LIMITS phase: MTU pair (loopback smaller / equal / larger / defaults)
+/// x family x sender binding (wildcard | loopback | own address) x (send_to | connect + send) x
+/// destination (loopback | own address | other host) x sending host; each scenario sends, from one
+/// socket, the six payload sizes limit-1, limit, limit+1 around the loopback limit and around the
+/// external limit.  The TCP phase is an idle connection.
+fn udp_limit_space() -> Vec<Scenario> {
+    let mut v = Vec::new();
+    let idle = || Side { w: vec![], r: vec![], bufs: vec![2048] };
+    for (mtu, lomtu) in [(300u32, 100u32), (100, 100), (100, 300), (49, 48), (1500, 65_536)] {
+        for v6 in [false, true] {
+            for bind in 0..3u8 {
+                for connected in [false, true] {
+                    for dst in 0..3u8 {
+                        if bind == 1 && dst != 0 {
+                            continue;
+                        }
+                        for host in 0..2usize {
+                            let mut ushapes = Vec::new();
+                            for ext_anchor in [false, true] {
+                                for delta in [-1i32, 0, 1] {
+                                    ushapes.push(UShape { host, v6, bind, connected, dst, ext_anchor, delta });
+                                }
+                            }
+                            v.push(Scenario {
+                                cfg: Cfg::default(),
+                                v6: false,
+                                lo: false,
+                                client: idle(),
+                                server: idle(),
+                                plan: FatePlan::default(),
+                                udp: vec![],
+                                extra: vec![],
+                                ucfg: UCfg { mtu, loopback_mtu: lomtu },
+                                ushapes,
                             });
                         }
                     }
@@ -913,8 +1302,10 @@ fn pair_space() -> Vec<Scenario> {
 /// | 65476, caps 1..=200 | 65536, retx 1..=4 / 2..=5), the program ranges of `side_strategy`
 /// (write_all of 1..=60 | 100..=400 bytes, reader buffers 1..=64 | 2048), `plan_strategy` (no
 /// by_kind table, no black-holing), `udp_strategy` (limit-200..=limit+40 | limit+70000),
-/// `extra_strategy` (0..=MAX_EXTRA connections) and the adjustments of `strategy()`'s own
-/// `prop_map` (UDP guard, `fit_mtu`).
+/// `extra_strategy` (0..=MAX_EXTRA connections), `ucfg_strategy` / `ushapes_strategy` (the
+/// UDP-LIMITS phase: mtu 48..=1500, loopback_mtu 48..=mtu | mtu+1..=mtu+200 | 65536, 0..=6 shapes,
+/// payload limit-200..=limit+40) and the adjustments of `strategy()`'s own `prop_map` (UDP
+/// guard, `fit_mtu`).
 pub fn fuzz_sanitize(sc: &mut Scenario) -> bool {
     let hdr = if sc.v6 { 60 } else { 40 };
     let mss = match sc.cfg.mtu % 108 {
@@ -1009,6 +1400,35 @@ pub fn fuzz_sanitize(sc: &mut Scenario) -> bool {
             p.delta = 1;
         }
     }
+    // UDP-LIMITS phase: `ucfg_strategy` (mtu 48..=1500; loopback_mtu below / equal / 1..=200 above /
+    // 65536, selected by the two low bits of the decoded value) and `ushapes_strategy`
+    let mtu = UMTU_MIN + sc.ucfg.mtu % (1500 - UMTU_MIN + 1);
+    let lo = sc.ucfg.loopback_mtu;
+    // relation weights 4 : 2 : 3 : 1 like the generator
+    let rel = match lo % 10 {
+        0..=3 => 0,
+        4 | 5 => 1,
+        6..=8 => 2,
+        _ => 3,
+    };
+    sc.ucfg = UCfg { mtu, loopback_mtu: ucfg_lo(mtu, rel, lo / 10) };
+    sc.ushapes.truncate(MAX_USHAPES);
+    for p in sc.ushapes.iter_mut() {
+        p.host %= 2;
+        p.bind %= 3;
+        p.dst = if p.bind == 1 { 0 } else { p.dst % 3 };
+        // 0 | 1 | -1 | -3..=-2 | 2..=40 | -200..=-4, roughly with the generator's weights
+        let x = p.delta as u32;
+        let y = (x / 16) as i32;
+        p.delta = match x % 16 {
+            0..=3 => 0,
+            4..=7 => 1,
+            8..=10 => -1,
+            11 | 12 => -(2 + y % 2),
+            13 | 14 => 2 + y % 39,
+            _ => -(4 + y % 197),
+        };
+    }
     fit_mtu(sc);
     valid(sc).is_ok()
 }
@@ -1023,14 +1443,21 @@ fn check(tier: Tier, seed: u64) -> i32 {
         space.len()
     );
     ctx.exhaustive("mss-pairs", &desc, Box::new(space.into_iter()), &run);
+    let uspace = udp_limit_space();
+    let udesc = format!(
+        "{} scenarios: (mtu/loopback_mtu 300/100 | 100/100 | 100/300 | 49/48 | 1500/65536) x (v4 | v6) x sender bound to (wildcard | loopback | own address) x (send_to | connect + send) x destination (loopback | own address | other host; loopback-bound senders: loopback only) x sending host; six datagrams per scenario from one socket: limit-1, limit, limit+1 around the loopback limit and around the external limit",
+        uspace.len()
+    );
+    ctx.exhaustive("udp-limits", &udesc, Box::new(uspace.into_iter()), &run);
     ctx.finish(
-        "random scenarios: KernelConfig (mtu = headers + 1..1460 with emphasis on 1-4 bytes of payload room, loopback_mtu likewise, send/recv caps 1..64K chosen independently, v4/v6) x one primary TCP connection cross-host (80%) or over loopback (20%) plus 0-3 further concurrent TCP connections (each opened by either host, cross-host / over the opener's loopback / to the opener's own address, v4 or v6 independently of the primary, connect delayed 0-3 rounds, tasks placed before or after the primary's so that sockets with different MSS — v4 vs v6, external vs loopback — coexist on one host in every creation order), every connection in both directions, writers mixing write_all, try_write bursts and pauses, readers mixing exact reads, try_read and pauses (so windows shrink, close and re-open) x fate plan (holds 1-5 rounds, delivery priorities, <= 2 drops) x 0-4 UDP sends of limit-200..limit+40 (and 70 000) bytes cross-host and to loopback, v4 and v6; plus the bounded family 'mss-pairs' (all pairs of path kinds side by side on one host, both creation orders, 3 MTU settings, bulk writes). Non-trivial = a window smaller than the MSS of its path was advertised at least once or a cap is smaller than the MSS of one of the connections; distinct by scenario hash.",
+        "random scenarios: KernelConfig (mtu = headers + 1..1460 with emphasis on 1-4 bytes of payload room, loopback_mtu likewise, send/recv caps 1..64K chosen independently, v4/v6) x one primary TCP connection cross-host (80%) or over loopback (20%) plus 0-3 further concurrent TCP connections (each opened by either host, cross-host / over the opener's loopback / to the opener's own address, v4 or v6 independently of the primary, connect delayed 0-3 rounds, tasks placed before or after the primary's so that sockets with different MSS — v4 vs v6, external vs loopback — coexist on one host in every creation order), every connection in both directions, writers mixing write_all, try_write bursts and pauses, readers mixing exact reads, try_read and pauses (so windows shrink, close and re-open) x fate plan (holds 1-5 rounds, delivery priorities, <= 2 drops) x 0-4 UDP sends of limit-200..limit+40 (and 70 000) bytes cross-host and to loopback, v4 and v6, from sockets bound to the address of the interface they send through; then a second phase on a fresh Net with its own MTU pair (mtu 48..1500; loopback_mtu smaller 40% / equal 20% / up to 200 larger 30% / 65536 10%): 0-6 UDP datagrams, each from host 0 or 1, v4 or v6, from a socket bound to the wildcard address / loopback / the host's own address (port 0, sockets reused by equal shapes), unconnected (send_to) or connected (send), to loopback / the sender's own address / the other host, payload = (loopback limit | external limit) + (-200..+40, emphasis on -1, 0, +1); plus the bounded families 'mss-pairs' (all pairs of path kinds side by side on one host, both creation orders, 3 MTU settings, bulk writes) and 'udp-limits' (every sender binding x destination x family x connectedness x 5 MTU pairs, sizes limit-1/limit/limit+1 around both limits). Non-trivial = a window smaller than the MSS of its path was advertised at least once or a cap is smaller than the MSS of one of the connections; distinct by scenario hash.",
         &[
             "loopback and own-address segments are folded back inside Kernel::egress and never reach the harness: on those paths only the cap and try_write clauses are checked, not MSS or window; such connections still share the host's socket table with the wire-visible ones",
             "the expected MSS of a wire segment is mtu - 20 (IPv4 source) or - 40 (IPv6 source) - 20, from the segment's own source address; if an extra IPv6 connection uses the external interface the generator raises an MTU <= 60 by 20 so that every connection has >= 1 byte of payload room",
             "una/W of the window clause are computed from segments already *delivered* to the sender (the harness is the wire); a FIN is not counted as a byte in flight",
             "the try_write clause is evaluated only when the connection is visible in netstat just before the call (an aborted/closed socket is hidden) and the call did not fail for another reason",
             "UDP datagrams are never dropped or delayed by this check; MTU payload room >= 1 byte, caps >= 1",
+            "UDP-LIMITS phase: the limit of a datagram is that of the interface it leaves through, decided by its DESTINATION (127.0.0.0/8, ::1: loopback_mtu - ip header - 8; another host: mtu - ip header - 8), never by the address the sending socket happens to be bound to; for a datagram to the sender's own routable address the docs name neither MTU (turmoil uses mtu, Linux would route it over lo), so only 'accepted up to the smaller limit, rejected beyond the larger' is asserted there; both MTUs >= 48 so that the limit is >= 0 for both families; a loopback-bound sender only sends to loopback; source addresses are not judged here (C17), only the source port",
             "liveness is not judged here (C06); a stalled or aborted connection still has all monitors applied on every round",
         ],
     )
